@@ -58,6 +58,28 @@ CHECKS["C16"] = ("E5-udp",
   "Exhaustive over the corpus x truncation lengths x 3 predecessors; sequences sampled.",
   "Loopback delivery in order and without loss (a 5 s timeout is reported as inconclusive, exit 2).",
   "DESIGN.md §5 C16")
+CHECKS["C01"] = ("E2-sim",
+  "proptest scenarios on the real daemons over a fault-injecting in-memory link (virtual clock); identity oracle on every success claim",
+  "Two real daemons exchange one file per scenario under generated configuration (segment size, both modes, closure, checksum type, CRC, NAK procedure, limits, timeouts, id widths), "
+  "adversarial content (zero runs, checksum-neutral word pairs, zero tail), link timing, scheduler seed and up to 5 faults (drop, duplicate, delay, bit corruption with CRC on); "
+  "for every (NoError, Complete, Retained) Finished indication at either user the destination file, read at that moment and at the end, must equal the source. "
+  "Plus an exhaustive family: one lost datagram at every position x weak-checksum contents x both modes. Sampled search: tens to hundreds of thousands of scenarios per run.",
+  "Single-threaded deterministic runtime (message orderings, not preemption). Trusts the harness link and the content generators.",
+  "DESIGN.md §5 C01")
+CHECKS["C02"] = ("E2-sim",
+  "fault-placement enumeration over the baseline exchange of the real daemons (virtual clock) + proptest pairs; success oracle",
+  "Acknowledged mode; for 6 sizes x 6 NAK procedures x CRC x closure every placement of one fault (drop, 2 duplicates, 2 delays) over every datagram ordinal of either direction is executed "
+  "(exhaustive), all pairs of faults in thorough (a rotating third of the grid) and sampled pairs in quick; destination == source, receiver's first and sender's Finished indication are "
+  "(NoError, Complete, Retained), both transactions gone at the end.",
+  "F < limit=3, Ti > Ta,Tn. Placement enumeration is exhaustive only for F=1 (and the stated subset for F=2).",
+  "DESIGN.md §5 C02")
+CHECKS["C03"] = ("E2-sim",
+  "exhaustive blackout-from-every-ordinal and kind-selective silence over a configuration grid + proptest combinations; bounded-time oracle on the virtual clock with a liveness probe and a post-run health check",
+  "For both modes x closure x NAK procedures x handler sets x sizes: blackout of either/both directions from every datagram ordinal, a peer that never passes one PDU kind (or a pair), "
+  "and sampled blackout+fault+cancel combinations. Every transaction instance seen at an entity must stop answering Report primitives by (last stimulus + B), "
+  "B = L*(Ti+Tn+2Ta)+NAK delay+exchange+5 s, no PDU flood, and afterwards each daemon must complete a fresh Put on the healed link.",
+  "Liveness is decided as bounded-time safety with a generous bound under virtual time; handlers ignore/suspend excluded as the statement says.",
+  "DESIGN.md §5 C03")
 NOT_YET = {}
 
 def main():
